@@ -1106,6 +1106,12 @@ def check_load(ctx, base, tree, case, o, G, use_model, batch):
         if leaked:
             ctx.property_failure(k, {"compiled module loaded although inspection is disallowed": sorted(leaked)})
         ctx.observe("static_compiled_present", bool(compiled))
+        # compiled modules are *skipped*: a package whose top module (and stubs top) is fine loads, whatever its submodules are
+        rootpkg = tree["pkgs"][0]
+        tops = [m for p in tree["pkgs"] if p["name"] == tree["root"] for m in p["mods"] if len(m["parts"]) == 1]
+        if (o["result"] == "LoadingError" and rootpkg["kind"] == "regular" and case["by"] in ("name", "path", "relpath", "default_search", "load_git")
+                and compiled and not any(m["vfault"] for m in tops) and o.get("through_loader") is not False):
+            ctx.property_failure(k, {"a submodule that cannot be visited aborted the static load instead of being skipped": o.get("message")})
     elif in_alphabet(tree) and o["result"] != "ok" and o.get("through_loader") is not False:
         finder_errors = {"FileNotFoundError"} if case["by"] == "missing_path" else set()
         if any(p["kind"] == "regular" and m["kind"] == "init" and len(m["parts"]) == 1 and m["vfault"] == "unicode" for p in tree["pkgs"] for m in p["mods"]):
